@@ -477,3 +477,21 @@ Proof.
     rewrite Hz in Hu. destruct (turn_open mid); [discriminate Hu|reflexivity].
   - cbn [ev_ok] in Hok. destruct Hok as (_ & Hx & _). apply Hx. exact Hp.
 Qed.
+
+(* ------------------------------------------------------------------ at the master level *)
+From PB Require Import DpMaster DpMasterHistory.
+
+Lemma first_request_master : forall pa bufsize m0 cs m' outs log,
+  1 <= p_max_retry pa ->
+  d_run pa bufsize m0 cs [] = Ok (m', outs, log) ->
+  contract_m None outs = true ->
+  forall k a o i q d, slot m0 k = Some (periph_new a o i q d) ->
+  forall pre h pdu post,
+  proj k log = pre ++ WReq h pdu :: post ->
+  no_request_since_offline pre ->
+  h = mkHeader a (p_address pa) (Some 60) (Some 62) (FcRequest FcbFirst RqSrdLow) /\ pdu = [] /\
+  fc_to_byte (h_fc h) = 108.
+Proof.
+  intros pa bufsize m0 cs m' outs log Hm H C k a o i q d Hk.
+  apply (first_request pa a o (proj k log) Hm). apply (master_history pa bufsize m0 cs m' outs log H C k a o i q d Hk).
+Qed.
